@@ -28,6 +28,10 @@ impl EventLog {
 
     pub fn append(&self, event: &Event) -> io::Result<()> {
         #[cfg(rip_verif)]
+        if rip_kernel::verif::fail("log.append") {
+            return Err(io::Error::other("injected append failure"));
+        }
+        #[cfg(rip_verif)]
         rip_kernel::verif::lock_point("log.writer", &|| self.writer.try_lock().is_ok());
         let mut writer = self.writer.lock().expect("event log mutex");
         let mut line = serde_json::to_string(event)
